@@ -73,7 +73,8 @@ theorem single_via_count {c : Config α} {g : List α}
     simp only [List.length_take]
     omega
 
-/-- **the algorithm ends**: when the reverse search fails there is no loop at all (`iterations` is
+/-- **the algorithm ends**: when the reverse search fails (other than by a limit, which fails the
+query) there is no loop at all (`iterations` is
 the forward search's count); otherwise the loop is structurally recursive on the replayed pops, and
 every turn — a dropped candidate included — removes one entry of the intersection queue:
 `iterations` is the two searches' count plus at most one turn per intersection entry, of which
@@ -83,7 +84,8 @@ theorem single_via_terminates {c : Config α} {g : List α}
     {fs rs pops : List Nat} {r : AlgResult α}
     (h : singleVia c g sim term source target k fs rs pops = .ok r) :
     ∃ fres, runVertexOriented c.fwd.inst source (some target) fs = .ok fres ∧
-      (((∃ e, runVertexOriented (c.rev g).inst target (some source) rs = .error e) ∧
+      (((∃ e, runVertexOriented (c.rev g).inst target (some source) rs = .error e ∧
+            e.stopsQuery = false) ∧
           r.iterations = fres.final.iters) ∨
        ∃ rres turns,
         runVertexOriented (c.rev g).inst target (some source) rs = .ok rres ∧
@@ -390,11 +392,11 @@ theorem accept_all_at_least_as_many {c : Config α} {g : List α}
   obtain ⟨fres', tsp', h1', htsp', hcT⟩ := singleVia_ok hT
   rw [h1] at h1'; cases h1'
   rw [htsp] at htsp'; cases htsp'
-  rcases hcA with ⟨⟨e, he⟩, rfl⟩ | ⟨rres, solA, itA, h2, hloopA, rfl⟩
+  rcases hcA with ⟨⟨e, he, _⟩, rfl⟩ | ⟨rres, solA, itA, h2, hloopA, rfl⟩
   · rcases hcT with ⟨_, rfl⟩ | ⟨rres', _, _, h2', _, _⟩
     · exact le_refl _
     · rw [he] at h2'; cases h2'
-  · rcases hcT with ⟨⟨e, he⟩, _⟩ | ⟨rres', solT, itT, h2', hloopT, rfl⟩
+  · rcases hcT with ⟨⟨e, he, _⟩, _⟩ | ⟨rres', solT, itT, h2', hloopT, rfl⟩
     · rw [he] at h2; cases h2
     · rw [h2] at h2'; cases h2'
       exact svLoop_acceptAll_ge _ _ _ _ _ _ _ _ (covered_init sim tsp) (le_refl _) hloopA hloopT
@@ -415,49 +417,67 @@ theorem accept_all_at_least_as_many_any_order {c : Config α} {g : List α}
   obtain ⟨fres', tsp', h1', htsp', hcT⟩ := singleVia_ok hT
   rw [h1] at h1'; cases h1'
   rw [htsp] at htsp'; cases htsp'
-  rcases hcA with ⟨⟨e, he⟩, rfl⟩ | ⟨rres, solA, itA, h2, hloopA, rfl⟩
+  rcases hcA with ⟨⟨e, he, _⟩, rfl⟩ | ⟨rres, solA, itA, h2, hloopA, rfl⟩
   · rcases hcT with ⟨_, rfl⟩ | ⟨rres', _, _, h2', _, _⟩
     · exact le_refl _
     · rw [he] at h2'; cases h2'
-  · rcases hcT with ⟨⟨e, he⟩, _⟩ | ⟨rres', solT, itT, h2', hloopT, rfl⟩
+  · rcases hcT with ⟨⟨e, he, _⟩, _⟩ | ⟨rres', solT, itT, h2', hloopT, rfl⟩
     · rw [he] at h2; cases h2
     · rw [h2] at h2'; cases h2'
       exact svLoop_acceptAll_ge_any_order hloopA hloopT
 
 /-! ## which failures propagate -/
 
-/-- (after the repairs `ksp/single-via-reverse-search-failed` and
-`ksp/single-via-alternative-failed`) with consistent adjacency and distinct origin and destination
+/-- (after the repairs `ksp/single-via-reverse-search-failed`, `ksp/single-via-alternative-failed`
+and the C10 repair 7780888) with consistent adjacency and distinct origin and destination
 single-via fails only with **the forward search's error** — the query is then not answerable by the
-underlying search either — or with an error of the similarity function (or the replay is not one
-the queue could have produced).  A failed reverse search yields the shortest route alone, a failed
-re-traversal drops that candidate; backtracking, the tree-count checks, the loop test and the
-frontier validation never fail. -/
+underlying search either —, with **the reverse search stopped by a limit of the termination model**
+(C10: a limit hit by any sub-search is the explicit `terminated` error, never a shortened answer;
+the only other member of `stopsQuery` is a Rust panic), or with an error of the similarity function
+(or the replay is not one the queue could have produced).  Any other failure of the reverse search
+yields the shortest route alone, a failed re-traversal drops that candidate; backtracking, the
+tree-count checks, the loop test and the frontier validation never fail. -/
 theorem single_via_failures {c : Config α} {g : List α} (hf : c.fwd.AdjConsistent)
     (hr : (c.rev g).AdjConsistent) {sim : List Nat → List Nat → Except ErrKind Bool}
     {term : KspTerm} {source target k : Nat} (hts : target ≠ source) {fs rs pops : List Nat}
     {e : ErrKind} (h : singleVia c g sim term source target k fs rs pops = .error e) :
     runVertexOriented c.fwd.inst source (some target) fs = .error e ∨
+    (runVertexOriented (c.rev g).inst target (some source) rs = .error e ∧ e.stopsQuery = true) ∨
     e = .scheduleExhausted ∨ e = .badSchedule ∨ (∃ a b, sim a b = .error e) :=
   singleVia_error hf hr hts h
 
+/-- conversely **a reverse search stopped by a limit always fails the query with that error**
+(the strict reading of C10 for the sub-searches of single-via) -/
+theorem single_via_reverse_limit_propagates {c : Config α} {g : List α}
+    {sim : List Nat → List Nat → Except ErrKind Bool} {term : KspTerm} {source target k : Nat}
+    {fs rs pops : List Nat} {fres : SearchResult α} {ks : List TermKind}
+    (hfwd : runVertexOriented c.fwd.inst source (some target) fs = .ok fres)
+    (hrev : runVertexOriented (c.rev g).inst target (some source) rs = .error (.terminated ks)) :
+    singleVia c g sim term source target k fs rs pops = .error (.terminated ks) := by
+  unfold singleVia
+  simp only [hfwd, hrev, ErrKind.stopsQuery, if_true]
+
 /-- hence **an answerable query is never turned into an error** by a similarity function that does
 not itself fail (`AcceptAll` and the cosine variants on routes of known edges): whenever the
-underlying search answers the query, so does single-via, on every accepted replay -/
+underlying search answers the query and the reverse search is not stopped by a limit (whatever else
+happens to it), so does single-via, on every accepted replay -/
 theorem single_via_answers_answerable {c : Config α} {g : List α} (hf : c.fwd.AdjConsistent)
     (hr : (c.rev g).AdjConsistent) {sim : List Nat → List Nat → Except ErrKind Bool}
     (hsim : ∀ a b, ∃ x, sim a b = .ok x)
     {term : KspTerm} {source target k : Nat} (hts : target ≠ source) {fs rs pops : List Nat}
     {fres : SearchResult α}
-    (hfwd : runVertexOriented c.fwd.inst source (some target) fs = .ok fres) :
+    (hfwd : runVertexOriented c.fwd.inst source (some target) fs = .ok fres)
+    (hrev : ∀ e, runVertexOriented (c.rev g).inst target (some source) rs = .error e →
+      e.stopsQuery = false) :
     (∃ r, singleVia c g sim term source target k fs rs pops = .ok r) ∨
     singleVia c g sim term source target k fs rs pops = .error .scheduleExhausted ∨
     singleVia c g sim term source target k fs rs pops = .error .badSchedule := by
   cases hres : singleVia c g sim term source target k fs rs pops with
   | ok r => exact Or.inl ⟨r, rfl⟩
   | error e =>
-    rcases single_via_failures hf hr hts hres with h | h | h | ⟨a, b, h⟩
+    rcases single_via_failures hf hr hts hres with h | ⟨h, hs⟩ | h | h | ⟨a, b, h⟩
     · rw [hfwd] at h; cases h
+    · rw [hrev e h] at hs; cases hs
     · exact Or.inr (Or.inl (by rw [h]))
     · exact Or.inr (Or.inr (by rw [h]))
     · obtain ⟨x, hx⟩ := hsim a b
@@ -557,165 +577,344 @@ theorem single_via_retraversal_failure_witness :
       [0, 1, 3] [3, 1, 0] [1, 2]) = .ok [[0, 1]] :=
   Example.missingDelay_runs
 
-/-! ## PART B — Yen's algorithm (`yens_algorithm::run`)
+/-! ## PART B — Yen's algorithm (`yens_algorithm::run`), as repaired
 
-The model (`Model/Ksp.lean`: `yens`, `yenWhile`, `yenFor`, `yenSpur`, `yenScan`) is faithful to the
-code including the outcomes in which the code does not return (`KspOutcome.diverges`).  The property
-is FALSE of it in almost every clause.  What holds is proved (`…_partial`); every clause that fails
-has a machine-checked counterexample, evaluated on the model with the schedules the implementation
-took on the same network (the harness corpus reproduces each on the real code in a child process).
+The model (`Model/Ksp.lean`: `yens`, `yenWhile`, `yenFor`, `yenSpur`, `yenDissimilar`) follows the
+code after the eight repairs of `vfix/C13` (spur range without underflow; stop when a turn accepts
+nothing; accept the best candidate once per turn and `take(k)`; dissimilar to ALL accepted routes;
+a failed spur search — other than one stopped by a limit — only skips its spur index; the spur part
+re-traversed from the root path's last edge and state; loop test; frontier validation in travel
+order).  Before them the property was false of Yen's algorithm in almost every clause; the
+`…_counterexample` theorems that recorded this are now the positive theorems below, at full
+strength: for every configuration whose adjacency lists agree with the edge list, every origin and
+destination, every `k`, an ARBITRARY similarity test, every criterion and every replayed schedule of
+the underlying searches (Dijkstra and A* alike).  Their old witnesses follow as `…_witness`
+theorems; the harness keeps each in its corpus under its old oracle key. -/
 
-FULL STATEMENT (false of the code), for the record: for every configuration, origin/destination,
-k ≥ 1, similarity `sim`, criterion and schedules, `yens … = .ok r` (never `.diverges`, and `.err`
-only where the underlying search fails on the query itself) with `1 ≤ r.routes.length ≤ k`, the
-first route that of the underlying search, every route a loop-free contiguous walk with accumulated
-state, pairwise distinct and pairwise dissimilar. -/
+/-- **Yen's algorithm ends**, for every `k`, every route length (one edge, two edges, origin =
+destination included), every similarity function and criterion: the model's `while` loop — a turn
+either accepts one more route or stops — never runs out of the `k + 1` turns of fuel.  (Each turn's
+`for` loop is over the finitely many spur indices of one route, each search is the terminating
+`run_a_star`.) -/
+theorem yens_terminates (c : Config α) (sim : List Nat → List Nat → Except ErrKind Bool)
+    (term : KspTerm) (source target k : Nat) (scheds : List (List Nat)) (why : String) :
+    yens c sim term source target k scheds ≠ .diverges why := by
+  unfold yens
+  split
+  · exact fun h => by cases h
+  · split
+    · exact fun h => by cases h
+    · exact yenWhile_terminates _ _ _ _ (by simp only [List.length_singleton]; omega) why
 
-/-- PARTIAL (holds): a returned result starts with the underlying search's route — so "the first is
-a least-cost route" follows from C02 exactly as for single-via — and holds at least one route -/
-theorem yens_first_route_partial {c : Config α} {sim : List Nat → List Nat → Except ErrKind Bool}
-    {term : KspTerm} {source target k : Nat} {scheds : List (List Nat)} {r : AlgResult α}
+/-- **between one and k routes** -/
+theorem yens_count {c : Config α} (hf : c.fwd.AdjConsistent)
+    {sim : List Nat → List Nat → Except ErrKind Bool} {term : KspTerm} {source target k : Nat}
+    {scheds : List (List Nat)} {r : AlgResult α}
     (h : yens c sim term source target k scheds = .ok r) :
-    ∃ fres first, runVertexOriented c.fwd.inst source (some target) (scheds.headD []) = .ok fres ∧
-      fres.route = some first ∧ r.routes.head? = some first ∧ 1 ≤ r.routes.length := by
-  obtain ⟨fres, first, h1, h2, h3⟩ := yens_first_route h
-  refine ⟨fres, first, h1, h2, h3, ?_⟩
-  cases hr : r.routes with
-  | nil => rw [hr] at h3; cases h3
-  | cons a rest => simp
+    r.routes.length ≤ k ∧ (1 ≤ k → 1 ≤ r.routes.length) := by
+  obtain ⟨_, _, acc, _, _, hacc, hr, _⟩ := yens_ok hf h
+  rw [hr, List.length_take]
+  have := List.length_pos_of_ne_nil hacc.ne_nil
+  omega
 
-/-- PARTIAL (holds): for k ≤ 1 Yen returns exactly the underlying search's route, tree and one
-iteration, on every network — the only setting in which the whole property holds (k = 1) -/
-theorem yens_k_le_one_partial {c : Config α} {sim : List Nat → List Nat → Except ErrKind Bool}
+/-- **best first**: the first returned route is the route of the underlying search (so it is a
+least-cost route under the C02 premises, exactly as `single_via_first_least_cost`) -/
+theorem yens_first_route {c : Config α} (hf : c.fwd.AdjConsistent)
+    {sim : List Nat → List Nat → Except ErrKind Bool} {term : KspTerm} {source target k : Nat}
+    (hk : 1 ≤ k) {scheds : List (List Nat)} {r : AlgResult α}
+    (h : yens c sim term source target k scheds = .ok r) :
+    ∃ fres, runVertexOriented c.fwd.inst source (some target) (scheds.headD []) = .ok fres ∧
+      r.routes.head? = fres.route ∧ r.trees = [fres.final.sol] := by
+  obtain ⟨fres, first, acc, h1, h2, hacc, hr, ht⟩ := yens_ok hf h
+  refine ⟨fres, h1, ?_, ht⟩
+  rw [hr, h2]
+  have hh := hacc.head
+  cases acc with
+  | nil => simp at hh
+  | cons a rest =>
+    simp only [List.head?_cons, Option.some.injEq] at hh
+    subst hh
+    cases k with
+    | zero => omega
+    | succ k => simp
+
+/-- the first route is a least-cost route wherever the underlying search is optimal (C02) -/
+theorem yens_first_least_cost {c : Config α} (hf : c.fwd.AdjConsistent)
+    {sim : List Nat → List Nat → Except ErrKind Bool} {term : KspTerm} {source target k : Nat}
+    (hk : 1 ≤ k) (hts : target ≠ source) {scheds : List (List Nat)} {r : AlgResult α}
+    {ok : Nat → Bool} {cst hv : Nat → α} (U : SearchOpt.Uniform c.fwd.inst ok cst hv)
+    (hadm : SearchOpt.Admissible c.fwd.inst ok cst hv target)
+    (h : yens c sim term source target k scheds = .ok r) :
+    ∃ first, r.routes.head? = some first ∧ first ≠ [] ∧
+      SearchOpt.Walk c.fwd.inst ok source (first.map (·.edge)) target ∧
+      ∀ es, SearchOpt.Walk c.fwd.inst ok source es target →
+        (first.map (fun b => b.access + b.traversal)).sum ≤ SearchOpt.cost cst es := by
+  obtain ⟨fres, h1, h2, _⟩ := yens_first_route hf hk h
+  obtain ⟨route, _, hr, hne, hw, _, _, _, hmin⟩ := SearchRoute.route_optimal U hts hadm h1
+  exact ⟨route, by rw [h2, hr], hne, hw, hmin⟩
+
+/-- **k ≤ 1**: exactly the underlying search's route for k = 1, no route for k = 0, the search's
+tree and one iteration -/
+theorem yens_k_le_one {c : Config α} {sim : List Nat → List Nat → Except ErrKind Bool}
     {term : KspTerm} {source target k : Nat} (hk : k ≤ 1) {scheds : List (List Nat)}
     {fres : SearchResult α} {first : List (Branch α)}
     (hrun : runVertexOriented c.fwd.inst source (some target) (scheds.headD []) = .ok fres)
     (hfirst : fres.route = some first) :
     yens c sim term source target k scheds =
-      .ok { trees := [fres.final.sol], routes := [first], iterations := 1 } :=
-  yens_k_le_one hk hrun hfirst
+      .ok { trees := [fres.final.sol], routes := [first].take k, iterations := 1 } := by
+  unfold yens
+  simp only [hrun, hfirst]
+  unfold yenWhile
+  have : ¬ (1 < k) := by omega
+  simp [this]
 
-/-- COUNTEREXAMPLE to termination, general form: on EVERY network where the shortest route has
-exactly two edges, every k ≥ 2, similarity and criterion, the call does not return -/
-theorem yens_two_edge_route_counterexample {c : Config α}
+/-- **every returned route is a contiguous loop-free walk origin ⇝ destination** in graph
+orientation: no vertex is left twice (`route_contains_loop` is false), hence no edge is repeated -/
+theorem yens_routes_valid {c : Config α} (hf : c.fwd.AdjConsistent)
     {sim : List Nat → List Nat → Except ErrKind Bool} {term : KspTerm} {source target k : Nat}
-    (hk : 2 ≤ k) {scheds : List (List Nat)} {fres : SearchResult α} {b1 b2 : Branch α}
-    (hrun : runVertexOriented c.fwd.inst source (some target) (scheds.headD []) = .ok fres)
-    (hfirst : fres.route = some [b1, b2]) :
-    yens c sim term source target k scheds = .diverges "no-progress" :=
-  yens_two_edge_route_diverges hk hrun hfirst
+    (hts : target ≠ source) {scheds : List (List Nat)} {r : AlgResult α}
+    (h : yens c sim term source target k scheds = .ok r) :
+    ∀ route ∈ r.routes,
+      GWalk c.edges source (route.map (·.edge)) target ∧
+      (∃ vs, srcVertices c.fwd route = .ok vs ∧ vs.Nodup) ∧
+      (route.map (·.edge)).Nodup := by
+  obtain ⟨fres, first, acc, h1, h2, hacc, hr, _⟩ := yens_ok hf h
+  intro route hroute
+  rw [hr] at hroute
+  have hmem := List.mem_of_mem_take hroute
+  have hloop : routeContainsLoop c.fwd route = .ok false := by
+    cases hacc' : acc with
+    | nil => exact absurd hacc' hacc.ne_nil
+    | cons a rest =>
+      have hh := hacc.head
+      rw [hacc'] at hh hmem
+      simp only [List.head?_cons, Option.some.injEq] at hh
+      rcases List.mem_cons.1 hmem with rfl | hm
+      · -- the first route: from the forward tree
+        subst hh
+        obtain ⟨hinv, hedges⟩ := fwd_tree_of_run c hf hts h1
+        obtain ⟨_, route', hr', hbt⟩ := SearchRoute.runVertexOriented_some h1
+        rw [h2] at hr'; cases hr'
+        exact (fwd_backtrack_walk' hinv hedges hbt).2.1
+      · obtain ⟨before, _, halt⟩ := hacc.tail_alt route (by rw [hacc']; exact hm)
+        exact halt.loopfree
+  obtain ⟨vs, hvs, hnd, hed⟩ := routeContainsLoop_false hloop
+  exact ⟨(hacc.good route hmem).walk, ⟨vs, hvs, hnd⟩, hed⟩
 
-/-- COUNTEREXAMPLE to termination, general form: on EVERY network where the shortest route is a
-single edge, every k ≥ 2, criterion, and similarity function that does not itself fail, the call
-does not return (`len - 2` underflows; with `AcceptAll` `accepted` grows every turn) -/
-theorem yens_one_edge_route_counterexample {c : Config α}
+/-- what the alternatives of a Yen result are: each is a proper alternative (`Ksp.YenAlt`) of the
+routes returned before it -/
+theorem yens_alternatives {c : Config α} (hf : c.fwd.AdjConsistent)
     {sim : List Nat → List Nat → Except ErrKind Bool} {term : KspTerm} {source target k : Nat}
-    (hk : 2 ≤ k) (hsim : ∀ a b, ∃ r, sim a b = .ok r) {scheds : List (List Nat)}
-    {fres : SearchResult α} {b : Branch α} {er : EdgeRec α}
-    (hrun : runVertexOriented c.fwd.inst source (some target) (scheds.headD []) = .ok fres)
-    (hfirst : fres.route = some [b]) (hedge : c.edges[b.edge]? = some er) (hdst : er.dst = target) :
-    yens c sim term source target k scheds = .diverges "underflow" :=
-  yens_one_edge_route_diverges hk hsim hrun hfirst hedge hdst
+    {scheds : List (List Nat)} {r : AlgResult α}
+    (h : yens c sim term source target k scheds = .ok r) :
+    ∀ route ∈ r.routes.tail, ∃ before, before <+: r.routes ∧
+      YenAlt c sim source target before route := by
+  obtain ⟨_, first, acc, _, _, hacc, hr, _⟩ := yens_ok hf h
+  -- the returned routes are themselves an accepted list: a prefix of one
+  have hpre : ∀ (n : Nat) (l : List (List (Branch α))), YenAcc c sim source target first l →
+      ∀ route ∈ (l.take n).tail, ∃ before, before <+: l.take n ∧
+        YenAlt c sim source target before route := by
+    intro n l hl
+    induction hl with
+    | base _ =>
+      intro route hroute
+      cases n with
+      | zero => simp at hroute
+      | succ n => simp at hroute
+    | @snoc l' bp hl' halt ih =>
+      intro route hroute
+      by_cases hn : n ≤ l'.length
+      · rw [List.take_append_of_le_length hn] at hroute ⊢
+        exact ih route hroute
+      · have hn' : l'.length < n := by omega
+        have htk : (l' ++ [bp]).take n = l' ++ [bp] := by
+          apply List.take_of_length_le
+          simp only [List.length_append, List.length_singleton]; omega
+        rw [htk] at hroute ⊢
+        have htl : l'.take n = l' := List.take_of_length_le (by omega)
+        rw [htl] at ih
+        have hne := hl'.ne_nil
+        cases l' with
+        | nil => exact absurd rfl hne
+        | cons a rest =>
+          simp only [List.cons_append, List.tail_cons] at hroute
+          rcases List.mem_append.1 hroute with hm | hm
+          · obtain ⟨before, hb1, hb2⟩ := ih route (by simpa using hm)
+            exact ⟨before, hb1.trans (List.prefix_append _ _), hb2⟩
+          · simp only [List.mem_singleton] at hm
+            subst hm
+            exact ⟨a :: rest, List.prefix_append _ _, halt⟩
+  rw [hr]
+  exact hpre k acc hacc
 
-/-- the two general forms are not vacuous: the diamond (two-edge shortest route — the very network
-of the single-via witness) and a one-edge route with a detour, Dijkstra, AcceptAll, k = 2 -/
-theorem yens_short_route_diverges_counterexample :
-    Example.obsOf (yens Example.diamond simAcceptAll .exact 0 3 2 [[0, 1, 3]]) = .diverges "no-progress" ∧
-    Example.obsOf (yens Example.oneEdge simAcceptAll .exact 0 1 2 [[0, 1]]) = .diverges "underflow" :=
-  ⟨Example.yen_two_edge, Example.yen_one_edge⟩
+/-- **correctly accumulated state**: every route after the first is the first `i + 1` elements of a
+route returned before it followed by a part each of whose elements is
+`EdgeTraversal::forward_traversal` of its edge from the previous element's edge and state, starting
+from the last edge and state of that root path (the junction's access cost and turn delay included) -/
+theorem yens_alternative_state {c : Config α} (hf : c.fwd.AdjConsistent)
+    {sim : List Nat → List Nat → Except ErrKind Bool} {term : KspTerm} {source target k : Nat}
+    {scheds : List (List Nat)} {r : AlgResult α}
+    (h : yens c sim term source target k scheds = .ok r) :
+    ∀ route ∈ r.routes.tail, ∃ prev ∈ r.routes, ∃ i spurRoute,
+      route = prev.take (i + 1) ++ spurRoute ∧
+      Reaccumulated c.fwd (lastEdge (prev.take (i + 1))) (lastState c.fwd (prev.take (i + 1)))
+        spurRoute := by
+  intro route hroute
+  obtain ⟨before, hpre, halt⟩ := yens_alternatives hf h route hroute
+  obtain ⟨prev, hprev, i, spurRoute, h1, h2⟩ := halt.shape
+  exact ⟨prev, hpre.subset hprev, i, spurRoute, h1, h2⟩
 
-/-- COUNTEREXAMPLE to termination with longer routes: when no candidate is dissimilar to an
-accepted route nothing is pushed and the `while` loop repeats the same spur searches for ever
-(`0 → 1 → 2 → 3` with the alternative `1 → 4 → 3`, "similar" = shares an edge, k = 2) -/
-theorem yens_no_dissimilar_candidate_counterexample :
+/-- **every alternative is permitted by the frontier model, pairwise, in travel order** — the
+junction of root path and spur path included; in particular it takes no turn listed by a
+turn-restriction model of the configuration -/
+theorem yens_routes_permitted {c : Config α} (hf : c.fwd.AdjConsistent)
+    {sim : List Nat → List Nat → Except ErrKind Bool} {term : KspTerm} {source target k : Nat}
+    {scheds : List (List Nat)} {r : AlgResult α}
+    (h : yens c sim term source target k scheds = .ok r) :
+    ∀ route ∈ r.routes.tail,
+      PermittedFrom c.fwd (initialState c.fwd.feats) none route ∧
+      ∀ pairs, FrontierM.turnRestriction pairs ∈ c.frontier →
+        ∀ i (hi : i + 1 < route.length), (route[i].edge, route[i + 1].edge) ∉ pairs := by
+  intro route hroute
+  obtain ⟨_, _, halt⟩ := yens_alternatives hf h route hroute
+  exact ⟨halt.permitted,
+    fun pairs hm => PermittedFrom.no_restricted_turn (cf := c.fwd) hm halt.permitted⟩
+
+/-- **no two returned routes have the same edge sequence, and no two are similar**: every accepted
+route was tested (`test_similarity(earlier, later)`, in that argument order) against EVERY route
+accepted before it -/
+theorem yens_distinct_dissimilar {c : Config α} (hf : c.fwd.AdjConsistent)
+    {sim : List Nat → List Nat → Except ErrKind Bool} {term : KspTerm} {source target k : Nat}
+    {scheds : List (List Nat)} {r : AlgResult α}
+    (h : yens c sim term source target k scheds = .ok r) :
+    r.routes.Pairwise (fun earlier later =>
+      earlier.map (·.edge) ≠ later.map (·.edge) ∧
+      sim (earlier.map (·.edge)) (later.map (·.edge)) = .ok false) := by
+  obtain ⟨_, _, acc, _, _, hacc, hr, _⟩ := yens_ok hf h
+  rw [hr]
+  exact hacc.pairwise.sublist (List.take_sublist _ _)
+
+/-- **which failures propagate**: the error of the first search (the query is then not answerable
+by the underlying search either), a spur search stopped by a limit of the termination model (C10;
+the other members of `stopsQuery` are a Rust panic and, in the model, an invalid replay), or an
+error of the similarity function.  A spur search that finds no path — or fails in any other way —,
+a failed re-traversal, a loop, a refusal of the frontier model only cost a candidate. -/
+theorem yens_failures {c : Config α} (hf : c.fwd.AdjConsistent)
+    {sim : List Nat → List Nat → Except ErrKind Bool} {term : KspTerm} {source target k : Nat}
+    {scheds : List (List Nat)} {e : ErrKind}
+    (h : yens c sim term source target k scheds = .err e) :
+    runVertexOriented c.fwd.inst source (some target) (scheds.headD []) = .error e ∨
+    (∃ cut v sched, runVertexOriented (cutCfg c cut).inst v (some target) sched = .error e ∧
+      e.stopsQuery = true) ∨
+    (∃ a b, sim a b = .error e) := by
+  unfold yens at h
+  split at h
+  · rename_i e' he'; cases h; exact Or.inl he'
+  · rename_i fres hfres
+    split at h
+    · cases h
+    · rename_i first hfirst
+      exact Or.inr (yenWhile_error hf _ _ _ _ e
+        (YenAcc.base (first_route_good hf hfres hfirst)) h)
+
+/-- hence **an answerable query is never turned into an error because a spur search failed**: when
+the underlying search answers the query, the similarity function does not itself fail and no spur
+search is stopped by a limit, Yen's algorithm returns a result -/
+theorem yens_answers_answerable {c : Config α} (hf : c.fwd.AdjConsistent)
+    {sim : List Nat → List Nat → Except ErrKind Bool} (hsim : ∀ a b, ∃ x, sim a b = .ok x)
+    {term : KspTerm} {source target k : Nat} {scheds : List (List Nat)} {fres : SearchResult α}
+    (hfwd : runVertexOriented c.fwd.inst source (some target) (scheds.headD []) = .ok fres)
+    (hspur : ∀ cut v sched e, runVertexOriented (cutCfg c cut).inst v (some target) sched = .error e →
+      e.stopsQuery = false) :
+    ∃ r, yens c sim term source target k scheds = .ok r := by
+  cases hres : yens c sim term source target k scheds with
+  | ok r => exact ⟨r, rfl⟩
+  | diverges why => exact absurd hres (yens_terminates c sim term source target k scheds why)
+  | err e =>
+    rcases yens_failures hf hres with h | ⟨cut, v, sched, h, hs⟩ | ⟨a, b, h⟩
+    · rw [hfwd] at h; cases h
+    · rw [hspur cut v sched e h] at hs; cases hs
+    · obtain ⟨x, hx⟩ := hsim a b
+      rw [hx] at h; cases h
+
+/-! ### Non-vacuity (Yen): `0 -e0→ 1 -e1→ 2 -e2→ 3` with the alternative `1 -e3→ 4 -e4→ 3`, k = 2 -/
+
+example : ∃ r, yens (Example.alt3 []) simAcceptAll .exact 0 3 2 [[0, 1, 2, 4, 3], [1, 4, 3]] = .ok r ∧
+    r.routes.map (·.map (·.edge)) = [[0, 1, 2], [0, 3, 4]] ∧ r.routes.length ≤ 2 ∧
+    (∀ route ∈ r.routes.tail, PermittedFrom (Example.alt3 []).fwd
+      (initialState (Example.alt3 []).fwd.feats) none route) ∧
+    r.routes.Pairwise (fun a b => a.map (·.edge) ≠ b.map (·.edge) ∧
+      simAcceptAll (a.map (·.edge)) (b.map (·.edge)) = .ok false) := by
+  obtain ⟨r, hr, hids⟩ := Example.ok_of_obsOf Example.yen_state_accumulated.1
+  exact ⟨r, hr, hids, (yens_count Example.alt3_adj hr).1,
+    fun route hroute => (yens_routes_permitted Example.alt3_adj hr route hroute).1,
+    yens_distinct_dissimilar Example.alt3_adj hr⟩
+
+/-! ### The old witnesses of Yen's defects, on the repaired algorithm (corpus keys in brackets) -/
+
+/-- [`yens/diverges-one-edge-route`, `yens/diverges-two-edge-route`, `yens/error-without-spur-search`]
+one-edge and two-edge shortest routes and origin = destination with k = 2: the call returns, with
+the one route there is to offer from these spur ranges -/
+theorem yens_short_route_witness :
+    (Example.obsOf (yens Example.oneEdge simAcceptAll .exact 0 1 2 [[0, 1]]) = .routes [[0]] ∧
+      Example.obsOf (yens Example.oneEdge (Example.shareAtLeast 1) .exact 0 1 2 [[0, 1]]) =
+        .routes [[0]]) ∧
+    Example.obsOf (yens Example.diamond simAcceptAll .exact 0 3 2 [[0, 1, 3]]) = .routes [[0, 1]] ∧
+    Example.obsOf (yens Example.pair simAcceptAll .exact 0 0 2 [[]]) = .routes [[]] :=
+  ⟨Example.yen_one_edge, Example.yen_two_edge, Example.yen_origin_is_destination⟩
+
+/-- [`yens/diverges-later-short-route`, `yens/diverges-no-progress`] a later two-edge route, and a
+turn whose only candidate is similar to an accepted route: the loop stops with what it has -/
+theorem yens_no_progress_witness :
+    Example.obsOf (yens Example.shortcut simAcceptAll .exact 0 3 3 [[0, 1, 2, 3], [1, 3]]) =
+      .routes [[0, 1, 2], [0, 3]] ∧
     Example.obsOf (yens (Example.alt3 []) (Example.shareAtLeast 1) .exact 0 3 2
-      [[0, 1, 2, 4, 3], [1, 4, 3]]) = .diverges "no-progress" :=
-  Example.yen_no_dissimilar_candidate
+      [[0, 1, 2, 4, 3], [1, 4, 3]]) = .routes [[0, 1, 2]] :=
+  ⟨Example.yen_later_short_route, Example.yen_no_dissimilar_candidate⟩
 
-/-- COUNTEREXAMPLE to "an answerable query is not turned into an error": on `0 → 1 → 2 → 3` the
-underlying search answers with `[e0, e1, e2]`; with k = 2 the spur search from 1 (edge e1 cut) finds
-no path and its error is propagated with `?`.  Origin = destination, k = 2: the empty route makes
-`len - 2` underflow and the first turn fails with "root path is empty". -/
-theorem yens_spur_failure_propagated_counterexample :
-    (Example.idsOf (Example.line3.runVertex 0 (some 3) [0, 1, 2, 3]) = .ok [[0, 1, 2]] ∧
-      Example.obsOf (yens Example.line3 simAcceptAll .exact 0 3 2 [[0, 1, 2, 3], [1]]) = .err .noPath) ∧
-    (Example.idsOf (Example.pair.runVertex 0 (some 0) []) = .ok [[]] ∧
-      Example.obsOf (yens Example.pair simAcceptAll .exact 0 0 2 [[]]) = .err .internal) :=
-  ⟨Example.yen_spur_failure, Example.yen_origin_is_destination⟩
+/-- [`yens/spur-failure-propagated`] `0 → 1 → 2 → 3` without any alternative, k = 2: the spur search
+from 1 still finds no path, and the query is answered with the shortest route -/
+theorem yens_spur_failure_witness :
+    Example.idsOf (Example.line3.runVertex 0 (some 3) [0, 1, 2, 3]) = .ok [[0, 1, 2]] ∧
+    Example.obsOf (yens Example.line3 simAcceptAll .exact 0 3 2 [[0, 1, 2, 3], [1, 3]]) =
+      .routes [[0, 1, 2]] :=
+  Example.yen_spur_failure
 
-/-- COUNTEREXAMPLE to "at most k routes": the best candidate is pushed inside the spur loop, after
-every spur index, and nothing truncates: three routes for k = 2 (four-edge route, two spur vertices,
-the second alternative cheaper); and for k = 0 the shortest route is returned all the same -/
-theorem yens_more_than_k_counterexample :
-    Example.obsOf (yens (Example.twoSpurs 3 (3 / 2)) simAcceptAll .exact 0 4 2
-      [[0, 1, 2, 3, 6, 4], [1, 5, 4], [2, 6, 4]]) =
-      .routes [[0, 1, 2, 3], [0, 4, 5], [0, 1, 6, 7]] ∧
-    Example.obsOf (yens Example.diamond simAcceptAll .exact 0 3 0 [[0, 1, 3]]) = .routes [[0, 1]] :=
-  ⟨Example.yen_more_than_k, Example.yen_k0⟩
-
-/-- COUNTEREXAMPLE to "no two routes have the same edge sequence": when the second spur's candidate
-is not cheaper, the unchanged best candidate is pushed a second time -/
-theorem yens_duplicate_route_counterexample :
+/-- [`yens/more-than-k`, `yens/duplicate-route`] the four-edge route with alternatives at both spur
+vertices: k = 2 returns the shortest route and the cheaper alternative, k = 3 all three — once each;
+k = 0 returns nothing -/
+theorem yens_at_most_k_witness :
+    (Example.obsOf (yens (Example.twoSpurs 3 (3 / 2)) simAcceptAll .exact 0 4 2
+        [[0, 1, 2, 3, 6, 4], [1, 5, 4], [2, 6, 4]]) = .routes [[0, 1, 2, 3], [0, 1, 6, 7]] ∧
+      Example.obsOf (yens (Example.twoSpurs 3 (3 / 2)) simAcceptAll .exact 0 4 3
+        [[0, 1, 2, 3, 6, 4], [1, 5, 4], [2, 6, 4], [1, 5, 4], [2]]) =
+        .routes [[0, 1, 2, 3], [0, 1, 6, 7], [0, 4, 5]]) ∧
     Example.obsOf (yens (Example.twoSpurs 2 3) simAcceptAll .exact 0 4 2
-      [[0, 1, 2, 5, 3, 4], [1, 5, 4], [2, 6, 4]]) =
-      .routes [[0, 1, 2, 3], [0, 4, 5], [0, 4, 5]] :=
-  Example.yen_duplicate
+      [[0, 1, 2, 5, 3, 4], [1, 5, 4], [2, 6, 4]]) = .routes [[0, 1, 2, 3], [0, 4, 5]] ∧
+    Example.obsOf (yens Example.diamond simAcceptAll .exact 0 3 0 [[0, 1, 3]]) = .routes [] :=
+  ⟨Example.yen_at_most_k, Example.yen_no_duplicate, Example.yen_k0⟩
 
-/-- COUNTEREXAMPLE to "correctly accumulated state": the spur search starts from the INITIAL state
-at the spur vertex, so the second route `[e0, e3, e4]` (lengths 1, 2, 2) reports distances
-1, 2, 4 — not 1, 3, 5 — and, with a turn-delay model, no delay at the junction -/
-theorem yens_state_not_accumulated_counterexample :
+/-- [`yens/state-not-accumulated`] the alternative `[e0, e3, e4]` (lengths 1, 2, 2) now reports the
+distances 1, 3, 5 -/
+theorem yens_state_accumulated_witness :
     Example.obsOf (yens (Example.alt3 []) simAcceptAll .exact 0 3 2 [[0, 1, 2, 4, 3], [1, 4, 3]]) =
       .routes [[0, 1, 2], [0, 3, 4]] ∧
     Example.statesOf (yens (Example.alt3 []) simAcceptAll .exact 0 3 2 [[0, 1, 2, 4, 3], [1, 4, 3]]) =
-      [[[1], [2], [3]], [[1], [2], [4]]] :=
-  Example.yen_state_not_accumulated
+      [[[1], [2], [3]], [[1], [3], [5]]] :=
+  Example.yen_state_accumulated
 
-/-- COUNTEREXAMPLE to "loop-free": only the edge after the root is cut, not the root's vertices; the
-spur path `1 → 0 → 4 → 3` returns through the origin: route `[e0, e3, e4, e5]` visits 0 twice -/
-theorem yens_loop_in_route_counterexample :
+/-- [`yens/loop-in-route`, `yens/similar-routes`, `yens/restricted-turn`] the candidate through the
+origin, the candidate similar to the second accepted route, the candidate with the restricted
+junction turn are all turned down -/
+theorem yens_candidate_tests_witness :
     Example.obsOf (yens Example.loopy simAcceptAll .exact 0 3 2 [[0, 1, 4, 2, 3], [1, 0, 4, 3]]) =
-      .routes [[0, 1, 2], [0, 3, 4, 5]] ∧
-    Example.loopy.edges[0]?.map (·.src) = some 0 ∧ Example.loopy.edges[4]?.map (·.src) = some 0 := by
-  exact ⟨Example.yen_loop, by decide +kernel, by decide +kernel⟩
-
-/-- COUNTEREXAMPLE to "no two routes are similar": a candidate is kept when it is dissimilar to ANY
-accepted route.  With "similar" = two common edges, `[e0, e3, e4, e5]` is returned together with
-`[e0, e3, e8, e9]` (and k = 3 yields four routes) -/
-theorem yens_similar_routes_counterexample :
+      .routes [[0, 1, 2]] ∧
     Example.obsOf (yens Example.fan (Example.shareAtLeast 2) .exact 0 9 3
       [[0, 1, 2, 3, 6, 5, 4, 9], [1, 3, 6, 5, 4, 9], [1, 5, 9], [3, 4, 9]]) =
-      .routes [[0, 1, 2], [0, 3, 8, 9], [0, 6, 7], [0, 3, 4, 5]] ∧
-    Example.shareAtLeast 2 [0, 3, 4, 5] [0, 3, 8, 9] = .ok true ∧
-    Example.shareAtLeast 2 [0, 3, 8, 9] [0, 3, 4, 5] = .ok true := by
-  exact ⟨Example.yen_similar, by decide, by decide⟩
-
-/-- COUNTEREXAMPLE to "valid route" under a turn-restriction model: the spur search starts at the
-spur vertex without a previous edge, so the junction turn (e0, e3) — restricted — is never shown to
-the frontier model and the route `[e0, e3, e4]` is returned -/
-theorem yens_restricted_turn_counterexample :
-    (Example.alt3 [.turnRestriction [(0, 3)]]).frontier = [.turnRestriction [(0, 3)]] ∧
+      .routes [[0, 1, 2], [0, 3, 8, 9], [0, 6, 7]] ∧
     Example.obsOf (yens (Example.alt3 [.turnRestriction [(0, 3)]]) simAcceptAll .exact 0 3 2
-      [[0, 1, 2, 3], [1, 4, 3]]) = .routes [[0, 1, 2], [0, 3, 4]] :=
-  ⟨rfl, Example.yen_restricted_turn⟩
-
-/-- COUNTEREXAMPLE to termination on a later turn: `0 → 1 → 2 → 3` plus a long direct edge `1 → 3`.
-k = 2 returns `[e0, e1, e2]` and the dearer two-edge route `[e0, e3]`; with k = 3 that two-edge route
-is the previous route of the next turn, whose spur loop is empty: no progress, no return -/
-theorem yens_later_short_route_counterexample :
-    Example.obsOf (yens Example.shortcut simAcceptAll .exact 0 3 2 [[0, 1, 2, 3], [1, 3]]) =
-      .routes [[0, 1, 2], [0, 3]] ∧
-    Example.obsOf (yens Example.shortcut simAcceptAll .exact 0 3 3 [[0, 1, 2, 3], [1, 3]]) =
-      .diverges "no-progress" :=
-  Example.yen_later_short_route
-
-/-! ### Non-vacuity (Yen): the partial results apply to an actual run (diamond, k = 1) -/
-
-example : ∃ r, yens Example.diamond simAcceptAll .exact 0 3 1 [[0, 1, 3]] = .ok r ∧
-    r.routes.map (·.map (·.edge)) = [[0, 1]] ∧ 1 ≤ r.routes.length := by
-  obtain ⟨r, hr, hids⟩ := Example.ok_of_obsOf Example.yen_k1
-  obtain ⟨_, _, _, _, _, hlen⟩ := yens_first_route_partial hr
-  exact ⟨r, hr, hids, hlen⟩
+      [[0, 1, 2, 3], [1, 4, 3]]) = .routes [[0, 1, 2]] :=
+  ⟨Example.yen_no_loop, Example.yen_dissimilar, Example.yen_restricted_turn⟩
 
 end C13
 end Compass
